@@ -273,12 +273,12 @@ func TestCheck(t *testing.T) {
 		}
 	}
 
-	// modes per (type, version): quick 9 values, thorough 500
+	// modes per (type, version): quick 14 values, thorough 500
 	type mc struct {
 		mode krammar.Mode
 		n    int
 	}
-	plan := []mc{{krammar.ModeDefault, 1}, {krammar.ModeSmall, 3}, {krammar.ModeBoundary, 2}, {krammar.ModeNulls, 1}, {krammar.ModeFull, 2}}
+	plan := []mc{{krammar.ModeDefault, 1}, {krammar.ModeSmall, 5}, {krammar.ModeBoundary, 3}, {krammar.ModeNulls, 1}, {krammar.ModeFull, 4}}
 	if r.Thorough() {
 		plan = []mc{{krammar.ModeDefault, 1}, {krammar.ModeSmall, 200}, {krammar.ModeBoundary, 120}, {krammar.ModeNulls, 4}, {krammar.ModeFull, 175}}
 	}
